@@ -210,7 +210,12 @@ func (d *verifSDriver) resolvePending() *verifSDTx {
 	}
 	tx := verifgen.Accept(n.cand, n.pledge, d.refs())
 	return &verifSDTx{Kind: "node-accept", Tx: tx, Specs: []verifgen.OutSpec{{Type: common.OutputTypeNodeAccept}},
-		apply: func() { n.state = common.NodeStateAccepted; n.accept = tx; d.nodes = append(d.nodes, n); d.pending = nil }}
+		apply: func() {
+			n.state = common.NodeStateAccepted
+			n.accept = tx
+			d.nodes = append(d.nodes, n)
+			d.pending = nil
+		}}
 }
 
 // applied tells the driver that t was finalized.
@@ -243,4 +248,3 @@ func verifSDSnapshotOn(sim *verifledger.Sim, chain crypto.Hash, hashes []crypto.
 	s.Hash = s.PayloadHash()
 	return &common.SnapshotWithTopologicalOrder{Snapshot: s, TopologicalOrder: sim.Topo + 1}, nil
 }
-
